@@ -41,7 +41,8 @@ CONSTANTS Dev,        \* subset of DevNames
 DevNames == {"LenientNumber", "MissingComma", "PlusInUnicodeEscape",
              "BugArrayTrailingComma", "BugDepthOffByOne", "BugControlInString", "BugLiteralPrefix",
              "BugSerRawControl", "BugSerNoQuoteEscape", "BugSerPrettyComma", "BugMemberOrder",
-             "BugIndexLastMatch", "BugGetMutNoInsert"}
+             "BugIndexLastMatch", "BugGetMutNoInsert",
+             "BugPairNoOffset", "BugSerBoundary1F", "BugSerPrettyEmptyPop", "BugDepthLeak"}
 ASSUME Dev \subseteq DevNames
 
 (***************************************************************************)
@@ -263,7 +264,8 @@ IString(s, i, acc) ==
       ELSE IF At(s, i + 7) # 117 THEN ISFailAt(i + 7)
       ELSE LET u2 == IHex4(s, i + 8) IN
            IF u2 < 0 THEN ISFailAt(IHexMis(s, i + 8))
-           ELSE IF IsHighSur(u) /\ IsLowSur(u2) THEN IString(s, i + 12, Append(acc, Pair(u, u2)))   \* decode_utf16
+           ELSE IF IsHighSur(u) /\ IsLowSur(u2)                                                   \* decode_utf16
+                THEN IString(s, i + 12, Append(acc, IF "BugPairNoOffset" \in Dev THEN Pair(u, u2) - 65536 ELSE Pair(u, u2)))
            ELSE ISFailAt(i + 11)
     ELSE ISFailAt(i + 1)
   ELSE IF c = 34 THEN [ok |-> TRUE, i |-> i + 1, cps |-> acc, at |-> 0]
@@ -358,7 +360,7 @@ SerChar(c) ==
   ELSE IF c = 10 THEN <<92, 110>>
   ELSE IF c = 13 THEN <<92, 114>>
   ELSE IF c = 9 THEN <<92, 116>>
-  ELSE IF c >= 32 \/ "BugSerRawControl" \in Dev THEN <<c>>
+  ELSE IF c >= 32 \/ "BugSerRawControl" \in Dev \/ (c = 31 /\ "BugSerBoundary1F" \in Dev) THEN <<c>>
   ELSE <<92, 117, 48, 48, HexDigit(c \div 16), HexDigit(c % 16)>>
 SerString(cps) == <<34>> \o Concat([k \in 1..Len(cps) |-> SerChar(cps[k])]) \o <<34>>
 
@@ -377,7 +379,8 @@ Ser(v, ind, size) ==
            item(k) == IF v.t = "arr" THEN Ser(v.a[k], inner, size)
                       ELSE SerString(v.k[k]) \o (IF ind < 0 THEN <<58>> ELSE <<58, 32>>) \o Ser(v.a[k], inner, size)
            sep(k) == IF k = n /\ "BugSerPrettyComma" \notin Dev THEN <<>> ELSE <<44>>   \* the last comma is popped
-       IN  IF n = 0 THEN <<open, close>>
+       IN  IF n = 0 THEN (IF ind >= 0 /\ "BugSerPrettyEmptyPop" \in Dev THEN <<10>> \o Spaces(ind) \o <<close>>   \* pop() took the bracket
+                          ELSE <<open, close>>)
            ELSE IF ind < 0 THEN <<open>> \o Concat([k \in 1..n |-> item(k) \o (IF k = n THEN <<>> ELSE <<44>>)]) \o <<close>>
            ELSE <<open>> \o Concat([k \in 1..n |-> <<10>> \o Spaces(inner) \o item(k) \o sep(k)])
                 \o <<10>> \o Spaces(ind) \o <<close>>
@@ -473,10 +476,10 @@ ParserCorrect(x, p) ==          \* the conjunction of the two, sharing the evalu
 \* the two definitions of depth agree on every JSON text
 DepthScanAgrees(x, p) == p.ok => p.d = BracketDepth(x)
 \* C13, serialiser half, on the model of serialize.rs: every denotable value (of the enumerated texts)
-\* is emitted as JSON that denotes the same value, compact and pretty with indent 0..2
+\* is emitted as JSON that denotes the same value, compact and pretty with indent 0, 1, 2 and 8
 SerRoundTrip(p) ==
   (p.ok /\ ~p.lone) =>
-     \A size \in {-1, 0, 1, 2} :
+     \A size \in {-1, 0, 1, 2, 8} :
         LET out == IF size < 0 THEN Serialize(p.v) ELSE SerializePretty(p.v, size)
             q == Parse(out)
         IN  q.ok /\ q.v = p.v /\ q.d = p.d
